@@ -346,11 +346,37 @@ DECLARED_POS = '''
 parameter = parameter_dict[k]
 result[k] = parameter.validate(value=bound_args[k])
 used_parameter_names.append(parameter.name)
-used_args.append(bound_args[k])
 '''
+DECLARED_POS_K5 = DECLARED_POS + 'used_args.append(bound_args[k])\n'
+# the *args branch since /repo 1908fef + 137d0c4: the collected positionals by position, zipped with the unused Parameters;
+# strict: a positional beyond the last Parameter raises TooManyArguments; otherwise it is passed through under the key *args[i]
 VARARGS_BRANCH = '''
+unused = [p for p in parameters if p.name not in used_parameter_names]
+
+if strict and len(bound_args[k]) > len(unused):
+    raise TooManyArguments(f'Got more arguments expected: No parameter found for '
+                           f'positional argument {len(unused)} of *args')
+
+for arg, parameter in zip(bound_args[k], unused):
+    print(f'Validate value {arg} with {parameter}')
+    result[parameter.name] = parameter.validate(arg)
+    used_parameter_names.append(parameter.name)
+
+for i, arg in enumerate(bound_args[k][len(unused):], start=len(unused)):
+    result[f'*args[{i}]'] = arg
+'''
+VARARGS_BRANCH_K5 = '''
 for arg, parameter in zip(
         [a for a in args if a not in used_args],
+        [p for p in parameters if p.name not in used_parameter_names]
+):
+    print(f'Validate value {arg} with {parameter}')
+    result[parameter.name] = parameter.validate(arg)
+    used_parameter_names.append(parameter.name)
+'''
+VARARGS_BRANCH_K4 = '''
+for arg, parameter in zip(
+        bound_args[k],
         [p for p in parameters if p.name not in used_parameter_names]
 ):
     print(f'Validate value {arg} with {parameter}')
@@ -444,7 +470,10 @@ def tr_wrapper_content(f):
                     bad('_wrapper_content: keyword loop has a self exemption')
                 cfg['kw'] = (st, lax)
                 cfg['phases'].append((guarded, 'PhKwargs')); i += 1; continue
-            if same(s, "wants_args = '*args' in str(signature)") or same(s, 'used_args = []'):
+            if same(s, 'used_args = []'):
+                bad('_wrapper_content: pre-fix shape of the *args branch: the values for *args are found by filtering all positionals '
+                    'by == against used_args (finding C12-K5, repaired by /repo 1908fef)')
+            if same(s, "wants_args = '*args' in str(signature)"):
                 i += 1; continue
             # bind_partial
             if isinstance(s, ast.Try):
@@ -465,9 +494,17 @@ def tr_wrapper_content(f):
                     bad('_wrapper_content: positional loop before bind_partial')
                 ok = len(s.body) == 1 and isinstance(s.body[0], ast.If)
                 top = s.body[0] if ok else None
-                ok = ok and same_expr(top.test, "k == 'args' and wants_args") and same_block(top.body, VARARGS_BRANCH) \
+                ok = ok and same_expr(top.test, "k == 'args' and wants_args")
+                if ok and same_block(top.body, VARARGS_BRANCH_K5):
+                    bad('_wrapper_content: pre-fix shape of the *args branch: values filtered by equality (finding C12-K5)')
+                if ok and same_block(top.body, VARARGS_BRANCH_K4):
+                    bad('_wrapper_content: pre-fix shape of the *args branch: zip drops a positional beyond the last Parameter silently, '
+                        'no TooManyArguments under strict (finding C12-K4, repaired by /repo 137d0c4)')
+                ok = ok and same_block(top.body, VARARGS_BRANCH) \
                     and len(top.orelse) == 1 and isinstance(top.orelse[0], ast.If)
                 mid = top.orelse[0] if ok else None
+                if ok and same_expr(mid.test, 'k in parameter_dict') and same_block(mid.body, DECLARED_POS_K5):
+                    bad('_wrapper_content: pre-fix shape of the positional loop: used_args bookkeeping by value (finding C12-K5)')
                 ok = ok and same_expr(mid.test, 'k in parameter_dict') and same_block(mid.body, DECLARED_POS)
                 if not ok:
                     bad('_wrapper_content: positional loop changed')
